@@ -29,7 +29,7 @@ print("|---|---|---|---|---|")
 for r in rows:
     print("| " + " | ".join(r) + " |")
 print()
-for rnd, sel in (("round 1", [r for r in rows if "-r" not in r[0]]), ("round 2", [r for r in rows if "-r2" in r[0]]), ("round 3", [r for r in rows if "-r3" in r[0]]), ("round 4", [r for r in rows if "-r4" in r[0]]), ("round 5", [r for r in rows if "-r5" in r[0]]), ("round 6", [r for r in rows if "-r6" in r[0]]), ("round 7", [r for r in rows if "-r7" in r[0]])):
+for rnd, sel in (("round 1", [r for r in rows if "-r" not in r[0]]), ("round 2", [r for r in rows if "-r2" in r[0]]), ("round 3", [r for r in rows if "-r3" in r[0]]), ("round 4", [r for r in rows if "-r4" in r[0]]), ("round 5", [r for r in rows if "-r5" in r[0]]), ("round 6", [r for r in rows if "-r6" in r[0]]), ("round 7", [r for r in rows if "-r7" in r[0]]), ("round 8", [r for r in rows if "-r8" in r[0]])):
     print(f"{rnd}: {len(sel)} seeded changes; first pass: {sum(1 for r in sel if r[3]=='reported')} reported by the property's own check, {sum(1 for r in sel if r[3].startswith('only'))} only by another property's check, {sum(1 for r in sel if r[3].startswith('analysis error'))} noticed only as an analysis error (exit 2), {sum(1 for r in sel if r[3]=='missed')} missed; now: {sum(1 for r in sel if r[4])} reported.")
 print()
 print(f"{len(rows)} seeded changes; first pass: {sum(1 for r in rows if r[3]=='reported')} reported by the property's own check, {sum(1 for r in rows if r[3].startswith('only'))} only by another property's check, {sum(1 for r in rows if r[3]=='missed')} missed; now: {sum(1 for r in rows if r[4])} reported.")
